@@ -241,6 +241,7 @@ def low_bit(run):
 
 
 def build(run):
+    lib.lean_lemmas(run, ["group_hints", "inj_bij"])
     from props import conformance
 
     conformance.run_conformance(run, ['symmetric', 'affine'])
